@@ -64,6 +64,10 @@ Record sstate := mkS {
   s_bank : bank }.
 
 Section Cfg.
+(* which variant of keeper.EndBlocker the tree has (decided by a probe in the harness): [true] = the
+   rate update is skipped when period*total weight is not positive (commit 2d6ac44), [false] = the
+   division / negative DecCoin panics *)
+Variable dynguard : bool.
 (* network actors: account -> roles in the order stored in the actor; accounts sorted *)
 Variable actors : list (Z * list Z).
 (* the denominations that occur (sorted): used to enumerate a pool's balance coins *)
@@ -230,6 +234,7 @@ Definition endblock_pool (now p : Z) (P : pool) (cl : list (pkey * Z)) : outcome
   let tw := total_weight T (claimants p cl) in
   if tw =? 0 then Ok P else
   do den <- dmul (dec_of_int (t_dynp T)) tw;
+  if dynguard && (den <=? 0) then Ok P else
   do rates <- dyn_rates U (p_bal P) den;
   Ok (mkPool (mkTerms (t_start T) (t_end T) (t_expiry T) rates (t_broles T) (t_baccts T) (t_dyn T) (t_dynp T))
              (p_bal P) now).
